@@ -424,18 +424,70 @@ def r16e(ctx: Context) -> None:
                 rule.fail(key, where(func, misuse), f"a value chosen by the log level ('{misuse.id}') is used outside logging")
             else:
                 rule.ok(key, "only logging (or saving the level for logging) depends on the log level")
-    # (iii) the stack-trace flag
-    for func in prog.iter_functions():
-        for node in walk_local(func.node):
-            if isinstance(node, ast.If) and "show_stack_trace" in norm(node.test) and "fix_debug" not in norm(node.test):
-                body = [s for top in node.body + node.orelse for s in ast.walk(top) if isinstance(s, ast.stmt)]
-                offending = [s for s in body if isinstance(s, (ast.Return, ast.Raise, ast.Break, ast.Continue)) or (isinstance(s, ast.Expr) and isinstance(s.value, ast.Call) and "exit_application" in norm(s.value))]
-                key = func_key(func, node.test)
-                if offending:
-                    rule.fail(key, where(func, offending[0]), f"control flow ('{norm(offending[0])[:60]}') depends on --stack-trace")
-                else:
-                    rule.ok(key, "selects message detail only")
+    # (iii) the stack-trace flag: whatever is computed from it may select message text, never control flow
+    flag_fields = {"__show_stack_trace"}
+    tainted: Dict[str, Set[str]] = {}
 
+    def carries(func: FuncInfo, expr: ast.AST) -> bool:
+        names = tainted.get(func.qualname, set())
+        for sub in ast.walk(expr):
+            if isinstance(sub, ast.Name) and sub.id in names:
+                return True
+            if isinstance(sub, ast.Attribute) and sub.attr in flag_fields and isinstance(sub.ctx, ast.Load):
+                return True
+        return False
+
+    changed = True
+    rounds = 0
+    while changed and rounds < 12:
+        changed = False
+        rounds += 1
+        for func in prog.iter_functions():
+            names = tainted.setdefault(func.qualname, set())
+            for node in walk_local(func.node):
+                if isinstance(node, (ast.Assign, ast.AnnAssign)) and getattr(node, "value", None) is not None and carries(func, node.value):
+                    targets = node.targets if isinstance(node, ast.Assign) else [node.target]
+                    for target in targets:
+                        for sub in ast.walk(target):
+                            if isinstance(sub, ast.Name) and sub.id not in names:
+                                names.add(sub.id)
+                                changed = True
+            for site in prog.sites_in(func):
+                if site.wild:
+                    continue
+                for target in site.targets:
+                    params = list(target.params)
+                    offset = 1 if target.kind in ("instance", "class", "property") or target.name == "__init__" else 0
+                    callee_names = tainted.setdefault(target.qualname, set())
+                    for index, arg in enumerate(site.node.args):
+                        if carries(func, arg) and index + offset < len(params) and params[index + offset] not in callee_names:
+                            callee_names.add(params[index + offset])
+                            changed = True
+                    for keyword in site.node.keywords:
+                        if keyword.arg and keyword.arg in params and carries(func, keyword.value) and keyword.arg not in callee_names:
+                            callee_names.add(keyword.arg)
+                            changed = True
+    checked = 0
+    for func in prog.iter_functions():
+        if func.rel.startswith("pymarkdown/api.py"):
+            continue  # the API only forwards the option to main (R16a)
+        for node in walk_local(func.node):
+            test = node.test if isinstance(node, (ast.If, ast.While)) else None
+            if test is None or not carries(func, test) or "fix_debug" in norm(test):
+                continue
+            checked += 1
+            blocks = (node.body + node.orelse) if isinstance(node, ast.If) else node.body
+            body = [s for top in blocks for s in ast.walk(top) if isinstance(s, ast.stmt)]
+            offending = [s for s in body if isinstance(s, (ast.Return, ast.Raise, ast.Break, ast.Continue)) or (isinstance(s, ast.Expr) and isinstance(s.value, ast.Call) and "exit_application" in norm(s.value))]
+            key = func_key(func, test)
+            if isinstance(node, ast.While):
+                offending = [node]
+            if offending:
+                rule.fail(key, where(func, offending[0]), f"control flow ('{norm(offending[0])[:60]}') depends on '{norm(test)[:60]}', which is computed from --stack-trace: the option changes what the run does, not only what its messages say")
+            else:
+                rule.ok(key, "selects message detail only")
+    if checked < 2:
+        raise AnalysisError(f"only {checked} test(s) on the stack-trace flag found (2 confirmed)")
 
 def run(ctx: Context) -> None:
     r16a(ctx)
